@@ -13,7 +13,7 @@ EXPLANATION = (
     'deletion markers included, reaches the insert; (R4) each populate migration returns Skip when its target is non-empty '
     'and run_migration commits only on Execute. (R5) the file-format migration that runs on open for stores written by '
     'iroh-docs 0.94..=0.98 (migrate_redb_v2_tuples::run), evaluated on an old file holding one row per table, carries the '
-    'records and both derived tables, and swaps the files only after the copy was committed. NOT decided: equality of '
+    'records and both derived tables, and swaps the files only after the copy was committed. (R6) the capability-table migrations 002 and 003 evaluated on a database without a version-1 table: Skip, nothing created, written or deleted; 003 deletes only the version-1 table. NOT decided: equality of '
     'answers for arbitrary table contents.'
 )
 ASSUMPTIONS = ["redb transactions are atomic; an uncommitted WriteTransaction is rolled back on drop"]
@@ -382,8 +382,16 @@ def r5(ctx):
     ctx.floor("C18.R5", 1)
 
 
+def r6(ctx):
+    """reopening an up-to-date database: the two capability-table migrations (002, 003) skip and touch nothing"""
+    from . import nsmig
+    nsmig.check_noop(ctx, "C18.R6")
+    ctx.floor("C18.R6", 3)
+
+
 def run(ctx):
     ctx.run_rule("C18.R1", r1)
     ctx.run_rule("C18.R2", r2)
     ctx.run_rule("C18.R4", r4)
     ctx.run_rule("C18.R5", r5)
+    ctx.run_rule("C18.R6", r6)
